@@ -52,10 +52,17 @@ def run_one(chk, beh, kind, prec, seed):
     for c in conts:
         a.run(c)
     want_pos = [c['at'] for c in beh['cols']]
-    if colpos != want_pos:
-        return 'convergence points are where the specification places them (strictly increasing, >= step apart, final remainder)', {'got_positions': colpos, 'want_positions': want_pos}
-    if rec.computes != beh['computes']:
-        return 'results are computed exactly where the specification computes them', {'got': rec.computes, 'want': beh['computes']}
+    OBS.append(({'step': int(beh['step']), 'ends': [int(x) for x in np.cumsum(beh['ns'])], 'bounds': [int(x) for x in np.cumsum([len(ids) for ids, _, _ in rec.batches])],
+                 'computes': list(rec.computes), 'cols': list(colpos)}, kind, beh))
+    if colpos != want_pos or rec.computes != beh['computes']:
+        # the code does not follow the mechanism model: the PROPERTY decides (specs/AnalysisTrace.tla judges the observed points)
+        bounds = list(np.cumsum([len(ids) for ids, _, _ in rec.batches]).astype(int))
+        obs = {'step': int(beh['step']), 'ends': [int(x) for x in np.cumsum(beh['ns'])], 'bounds': [int(x) for x in bounds], 'computes': rec.computes, 'cols': colpos}
+        clause = judge_points(chk, obs)
+        if clause != 'ok':
+            return 'convergence ' + clause, {'got_positions': colpos, 'model_positions': want_pos, 'observation': obs}
+        chk.drift += 1
+        want_pos = colpos
     ncol = 0 if a.convergence_traces is None else a.convergence_traces.shape[-1]
     if ncol != len(want_pos):
         return 'one convergence column per convergence point', {'columns': ncol, 'points': len(want_pos)}
@@ -78,6 +85,21 @@ def run_one(chk, beh, kind, prec, seed):
     if not np.array_equal(np.asarray(a.results), np.asarray(b.results), equal_nan=True) or not np.array_equal(np.asarray(a.scores), np.asarray(b.scores), equal_nan=True):
         return 'requesting convergence traces never changes the final results or scores', {}
     return None, {}
+
+
+OBS = []
+
+
+def judge_points(chk, obs):
+    import os
+    from .. import disthist as dh
+    path = dh.write_json([obs])
+    try:
+        r = tlc.run('AnalysisTrace', cfg_text=tlc.cfg(invariants=['Verdict']), env={'TRACES': path}, workers=1, timeout=300)
+    finally:
+        os.unlink(path)
+    chk.add_tlc('TRACE:observed convergence points judged by the property', r)
+    return r.emits('VERDICT')[0]['clause']
 
 
 def run(chk):
@@ -113,6 +135,21 @@ def run(chk):
                                   f'{kind} ns={beh["ns"]} base={beh["base"]} step={beh["step"]}: {bad}')
                 if len(chk.samples) < 3 and len(beh['cols']) >= 3:
                     chk.sample({'ns': beh['ns'], 'batch_size': beh['base'], 'step': beh['step'], 'effective_batch': beh['bs'], 'points': beh['cols']})
+        # (V) every observed execution, judged by the property alone in one TLC run
+        if OBS:
+            import os
+            from .. import disthist as dh
+            path = dh.write_json([o for o, _, _ in OBS])
+            try:
+                r = tlc.run('AnalysisTrace', cfg_text=tlc.cfg(invariants=['Verdict']), env={'TRACES': path}, workers=1, timeout=900)
+            finally:
+                os.unlink(path)
+            chk.add_tlc('TRACE:all observed convergence executions judged by the property', r)
+            for v in r.emits('VERDICT'):
+                o, kind, beh = OBS[v['t'] - 1]
+                chk.traces_validated += 1
+                if v['clause'] != 'ok':
+                    chk.violation(f'{kind}:convergence {v["clause"]}', {'property': 'C08', 'observation': o, 'behaviour': beh, 'kind': kind, 'clause': v['clause']}, f'{kind}: observed points {o["cols"]}: {v["clause"]}')
     finally:
         scared.Container._BATCH_SIZE = old
 
